@@ -26,6 +26,12 @@ func newStringPrefixFilter(code *syntax.Code) StringPrefixFilter {
 	if code == nil || code.RightToLeft || code.FindOptimizations == nil {
 		return nil
 	}
+	// The candidate found by the filter becomes the scan start, which is also
+	// the \G origin. A pattern that uses \G must be searched from the caller's
+	// start position, so it gets no pre-decode filter.
+	if code.UsesStartAnchor() {
+		return nil
+	}
 
 	opts := code.FindOptimizations
 	minRequiredLength := opts.MinRequiredLength
